@@ -389,9 +389,7 @@ def check(ctx):
     base = len(reqs)
     for key, e, se, al, n, t in jobs:
         alst = "[" + ",".join(map(str, al)) + "]"
-        reqs.append(f"compile {FUEL} {se}")
-        reqs.append(f"acceptsmany {FUEL} {se} {n} {alst}")
-        reqs.append(f"scanmany {FUEL} {se} {n} {alst}")
+        reqs.append(f"auto {FUEL} {se} {n} {alst}")
         reqs.append(f"langmany {se} {n} {alst}")
         reqs.append(f"specmany {syn_enc(t)} {n} {alst}" if t is not None else f"langmany {se} {n} {alst}")
 
@@ -453,8 +451,13 @@ def check(ctx):
     # ---- pass 2: the property on the real code ----------------------------------------------
     k = base
     for key, e, se, al, n, t in jobs:
-        m_compile, m_acc, m_scan, m_lang, m_spec = out[k:k + 5]
-        k += 5
+        m_auto, m_lang, m_spec = out[k:k + 3]
+        k += 3
+        if m_auto.startswith("ok "):
+            m_compile, m_acc, m_scan = m_auto.split(" | ")
+            m_acc, m_scan = "ok " + m_acc, "ok " + m_scan
+        else:
+            m_compile = m_acc = m_scan = m_auto
         strs = all_strings(al, n)
         diverges = m_compile == "err Fuel"
         pr = attempt(R.compile, e, limit=FAST if diverges else SLOW)
@@ -527,7 +530,7 @@ def check(ctx):
         if i != m:
             ctx.disagree("scanvec", {"tokens": spec, "text": text}, i, m)
     ctx.sample({"regex": "a(b|c)d", "impl_parse": expect[1], "model_parse": out[1]})
-    ctx.sample({"regex": jobs[30][0], "model_compile": out[base + 150][:200]})
+    ctx.sample({"regex": jobs[30][0], "model_compile": out[base + 90].split(" | ")[0][:200]})
     ctx.extra_cov["exhaustive"] = True
     ctx.extra_cov["exhaustive_domain"] = f"syntax trees <= {NMAX} nodes over leaves a,b x strings over {{a,b}} of length <= {SLEN}"
     ctx.extra_cov["trees"] = len(work)
